@@ -289,6 +289,10 @@ def c11_check(res, known, args):
     items, _ = T.generate(res.seed + 1, n, core.REPO)
     tx = [(k, d.decode("utf-8", "replace")) for k, d in items]
     tx += [("corpus:" + pid, text) for pid, text in corpus.layout_programs()]
+    # compilable programs of the codec corpus (every option configuration shape, every finding cell): the generators
+    # must not crash on what they are mostly run on
+    tx += [("corpus:" + pid, text) for pid, text in corpus.finding_programs()]
+    tx += [("corpus:" + pid, text) for pid, text in corpus.cell_programs(corpus.pairwise_configs()[:6] if res.tier == "quick" else corpus.all_configs()[::5])]
     replay = os.environ.get("VERIF_REPLAY_DSL")
     if replay:
         tx = [("replay", replay)]
